@@ -20,13 +20,23 @@ GLOBAL_ASSUMPTIONS = [
 PROPS = {
     'C06': {
         'units': ['x86_code'],
-        'aux': [],
+        'aux': ['native_emitters_x86', 'native_moves'],
         'level': 'proof',
         'claim': 'Every instruction emitter of the x86-64 backend is proved, for all operand placements (registers / spill slots, every aliasing pattern the call sites allow) and all 64-bit contents, to have exactly the effect of the abstract operation on an explicit ISA model, with a full frame (everything but the named scratch locations unchanged). This is the instruction-selection layer of C06, proved without bound; whole-program simulation is not decided.',
         'note': 'Trusted: the hand-written ISA specification, the extraction rules, the printer, Verus/Z3. Program-level composition is not decided.',
         'technique': 'contract-based deductive verification (Verus) of the extracted real emitters against an ISA specification',
         'not_decided': 'composition of the proved fragments over whole programs (labels, indirect jumps, recursion); conditional-branch control flow is specified as a taken/not-taken decision only',
         'explanation': 'Hoare-style contracts over an x86-64 ISA specification on every instruction emitter of axcut2x86_64, for all operand placements and all 64-bit values',
+    },
+    'C11': {
+        'units': ['x86_moves'],
+        'aux': ['native_moves'],
+        'level': 'other',
+        'claim': 'Backend pieces of the parallel-moves algorithm (mov, store_temporary, restore_temporary) are proved by Verus for all placements; the generic forest algorithm, the reference-count dispatch and their composition through the real Substitute::code_statement are checked exhaustively for every map of m<=5 new to n<=5 old variables, every kind assignment and every window offset across each register/spill boundary on all three backends (m,n<=4 in the quick tier), by executing the emitted code on a machine model with distinct tokens. The exhaustive part is a bounded check, not a proof.',
+        'note': 'Bounded: spanning_forest/tree_moves use std BTreeMap/closures which neither Verus nor Kani reaches; correctness beyond the enumerated sizes is not decided. Trusted: machine models, token parametricity (T5).',
+        'technique': 'Verus contracts on the backend move primitives + exhaustive bounded native contract check of the real Substitute::code_statement',
+        'not_decided': 'correctness of spanning_forest for unbounded sizes',
+        'explanation': 'Verus: mov/store_temporary/restore_temporary contracts (proved, all placements). Bounded native contract check: all maps m,n<=5 (thorough) / <=4 (quick) x kinds x offsets x 3 backends + random larger maps; never counted as proved.',
     },
     'C14': {
         'units': ['x86_code'],
